@@ -1760,7 +1760,9 @@ fn feerate_bump<F: FeeEstimator, L: Logger>(
 		return None;
 	}
 
-	let new_feerate = new_fee * 1000 / predicted_weight;
+	// Round the feerate up: it is what a later rebroadcast or bump starts from, and rounding it
+	// down would have a `RetryPrevious` of this claim pay less than `new_fee`.
+	let new_feerate = (new_fee * 1000 + predicted_weight - 1) / predicted_weight;
 	log_debug!(logger, "Fee rate bumped by {}s from {} s/KWU ({} s) to {} s/KWU ({} s)", new_fee - previous_fee, previous_feerate, previous_fee, new_feerate, new_fee);
 	Some((new_fee, new_feerate))
 }
